@@ -8,7 +8,7 @@ TRUSTED = ["CBMC 6.11 + uninterpreted functions", "abstract group model (stubs/i
 ASSUMPTIONS = ["scalar_add/sub: inputs reduced (as documented)", "scalar_random: accepted within 2 draws"]
 OUTSIDE = ["exactness of point addition/doubling/decoding/scalar multiplication and of sc25519_reduce/mul/muladd/invert against arithmetic on the curve / mod L: "
            "algebraic identities over GF(2^255-19) and 21-bit-limb reductions with symbolic multiplications - no back end available here decides them (DESIGN.md C07)",
-           "Elligator / Ristretto maps", "main-subgroup test"]
+           "Elligator / Ristretto maps and the Ristretto encode/decode formulas (abstract here)", "main-subgroup test"]
 CORE = ["crypto_core/ed25519/core_ed25519.c", "crypto_scalarmult/ed25519/ref10/scalarmult_ed25519_ref10.c", "sodium/utils.c", "crypto_verify/verify.c"]
 STUBS = ["ideal_ed25519.c", "ideal_hash.c", "rng.c", "misuse.c", "libc.c", "x86_builtins.c"]
 
@@ -25,4 +25,10 @@ def obligations(tier):
         obs.append(Ob("scalarmult-%s" % ("clamp" if cl else "noclamp"), "C07/core.c", units=CORE, stubs=STUBS, defs={"PART": 2, "CLAMP": cl},
                       unwind=70, timeout=900, family="scalarmult-ed25519-drivers",
                       desc="crypto_scalarmult_ed25519(_noclamp): validation, clamping, identity/zero-scalar error", bounds="all input bytes"))
+    RIS = ["crypto_core/ed25519/core_ristretto255.c", "crypto_core/ed25519/core_ed25519.c", "crypto_scalarmult/ristretto255/ref10/scalarmult_ristretto255_ref10.c",
+           "sodium/utils.c", "crypto_verify/verify.c"]
+    for part, nm in ((0, "validate-add-sub"), (1, "scalarmult"), (2, "from-hash-random-scalars")):
+        obs.append(Ob("ristretto-" + nm, "C07/ristretto.c", units=RIS, stubs=STUBS, defs={"PART": part}, unwind=70, timeout=900, family="ristretto255-drivers",
+                      desc="crypto_core_ristretto255 / crypto_scalarmult_ristretto255 drivers == spec over the abstract group with an abstract Ristretto encoding layer",
+                      bounds="all input bytes"))
     return obs
